@@ -182,3 +182,54 @@ func mkXLSXSimple(cells []string) []zipMember {
 	}
 	return c17WorkbookMembers([]c17Sheet{{name: "Sheet1", rows: rows}}, nil)
 }
+
+type pdfLine struct {
+	x, y int
+	size int
+	text string
+}
+
+// mkPDFLines: one content stream per page with absolutely positioned lines (Tm)
+func mkPDFLines(pages [][]pdfLine, width, height int) []byte {
+	var b bytes.Buffer
+	var offs []int
+	obj := func(n int, body string) {
+		for len(offs) <= n {
+			offs = append(offs, 0)
+		}
+		offs[n] = b.Len()
+		fmt.Fprintf(&b, "%d 0 obj\n%s\nendobj\n", n, body)
+	}
+	b.WriteString("%PDF-1.4\n%\xe2\xe3\xcf\xd3\n")
+	obj(1, "<< /Type /Catalog /Pages 2 0 R >>")
+	var kids []string
+	for i := range pages {
+		kids = append(kids, fmt.Sprintf("%d 0 R", 4+2*i))
+	}
+	obj(2, fmt.Sprintf("<< /Type /Pages /Kids [%s] /Count %d >>", strings.Join(kids, " "), len(pages)))
+	obj(3, "<< /Type /Font /Subtype /Type1 /BaseFont /Helvetica /Encoding /WinAnsiEncoding >>")
+	esc := strings.NewReplacer("\\", "\\\\", "(", "\\(", ")", "\\)")
+	for i, lines := range pages {
+		var c strings.Builder
+		c.WriteString("BT\n")
+		for _, l := range lines {
+			sz := l.size
+			if sz == 0 {
+				sz = 12
+			}
+			fmt.Fprintf(&c, "/F1 %d Tf 1 0 0 1 %d %d Tm (%s) Tj\n", sz, l.x, l.y, esc.Replace(l.text))
+		}
+		c.WriteString("ET")
+		content := c.String()
+		obj(4+2*i, fmt.Sprintf("<< /Type /Page /Parent 2 0 R /MediaBox [0 0 %d %d] /Resources << /Font << /F1 3 0 R >> >> /Contents %d 0 R >>", width, height, 5+2*i))
+		obj(5+2*i, fmt.Sprintf("<< /Length %d >>\nstream\n%s\nendstream", len(content), content))
+	}
+	xref := b.Len()
+	n := len(offs)
+	fmt.Fprintf(&b, "xref\n0 %d\n0000000000 65535 f \n", n)
+	for i := 1; i < n; i++ {
+		fmt.Fprintf(&b, "%010d 00000 n \n", offs[i])
+	}
+	fmt.Fprintf(&b, "trailer\n<< /Size %d /Root 1 0 R >>\nstartxref\n%d\n%%%%EOF\n", n, xref)
+	return b.Bytes()
+}
